@@ -296,21 +296,54 @@ def rule_upper_quoted(ctx, rule):
     ctx.rule(rule, "escape case: LOWERCASE_QUOTED_RE covers every %HH with a lower-case hex digit and matches nothing but valid escapes; the callback upper-cases the whole match")
     repo = ctx.repo
     q = repo.mod("quote")
-    rx = repo.const(q, "LOWERCASE_QUOTED_RE")
-    ctx.rx("ural.quote.LOWERCASE_QUOTED_RE")
-    site = q.site(repo.const_node(q, "LOWERCASE_QUOTED_RE"))
-    A = Algebra()
+    has_regex = q.last_binding("LOWERCASE_QUOTED_RE") is not None
+    if has_regex:
+        rx = repo.const(q, "LOWERCASE_QUOTED_RE")
+        ctx.rx("ural.quote.LOWERCASE_QUOTED_RE")
+        site = q.site(repo.const_node(q, "LOWERCASE_QUOTED_RE"))
+        A = Algebra()
+        try:
+            a = A.regex(rx.pattern, rx.flags, "fullmatch", "LOWERCASE_QUOTED_RE")
+            must = A.regex(r"%(?:[0-9A-Fa-f][a-f]|[a-f][0-9A-Fa-f])", 0, "fullmatch")
+            esc = A.regex(r"%[0-9A-Fa-f]{2}", 0, "fullmatch")
+            w = A.subset(must, a)
+            ctx.ob(rule, "covers-lowercase-escapes", w is None, "escape %r has a lower-case hex digit but is not matched by LOWERCASE_QUOTED_RE: its case survives canonicalisation" % w, site, witness=w)
+            w = A.subset(a, esc)
+            ctx.ob(rule, "only-valid-escapes", w is None, "LOWERCASE_QUOTED_RE matches %r, which is not a valid %%HH escape: upper_quoted would rewrite ordinary text" % w, site, witness=w)
+        except Unsupported as e:
+            ctx.undecided(rule, "LOWERCASE_QUOTED_RE: %s" % e)
+    else:
+        ctx.undecided(rule, "LOWERCASE_QUOTED_RE is gone: upper_quoted is decided by its behaviour table only")
+    # behaviour table by finite-domain interpretation: every string of length <= 4 over the token alphabet
+    # {%, a, F, 4, z, e-acute} (valid / invalid / truncated escapes, both cases, non-ASCII)
+    import itertools
+    import re as _re
+    from ..microeval import run_function
+    uref = q.func("upper_quoted")
+    refrx = _re.compile(r"%[0-9A-Fa-f]{2}")
+    n_tab = 0
+    bad = None
     try:
-        a = A.regex(rx.pattern, rx.flags, "fullmatch", "LOWERCASE_QUOTED_RE")
-        must = A.regex(r"%(?:[0-9A-Fa-f][a-f]|[a-f][0-9A-Fa-f])", 0, "fullmatch")
-        esc = A.regex(r"%[0-9A-Fa-f]{2}", 0, "fullmatch")
-    except Unsupported as e:
-        ctx.undecided(rule, "LOWERCASE_QUOTED_RE: %s" % e)
+        for L in range(0, 5):
+            for tup in itertools.product("%aF4z\u00e9", repeat=L):
+                sx = "".join(tup)
+                if "%" not in sx:
+                    continue
+                n_tab += 1
+                exp = refrx.sub(lambda mo: mo.group(0).upper(), sx)
+                got = run_function(repo, uref, [sx])
+                if got != exp:
+                    bad = (sx, got, exp)
+                    break
+            if bad:
+                break
+        ctx.ob(rule, "upper_quoted/table", bad is None,
+               "upper_quoted(%r) gives %r, expected %r: it must only change the case of hex digits inside valid %%HH escapes" % (bad or ("", "", "")), q.site(uref.node), witness=bad and bad[0],
+               sample="%d strings over the alphabet {%%, a, F, 4, z, e-acute} up to length 4" % n_tab)
+    except Unknown as e:
+        ctx.undecided(rule, "upper_quoted not interpretable: %s" % e)
+    if not has_regex:
         return
-    w = A.subset(must, a)
-    ctx.ob(rule, "covers-lowercase-escapes", w is None, "escape %r has a lower-case hex digit but is not matched by LOWERCASE_QUOTED_RE: its case survives canonicalisation" % w, site, witness=w)
-    w = A.subset(a, esc)
-    ctx.ob(rule, "only-valid-escapes", w is None, "LOWERCASE_QUOTED_RE matches %r, which is not a valid %%HH escape: upper_quoted would rewrite ordinary text" % w, site, witness=w)
     # upper_quoted = LOWERCASE_QUOTED_RE.sub(upper_match, string); upper_match = match.group(0).upper()
     ex = P.Extractor(repo, atomic=set())
     t = ex.result_term(ex.function(q.func("upper_quoted")))
